@@ -8,16 +8,18 @@ mkdir -p $OUT
 cp $W/patch.diff $OUT/patch.diff; cp $W/demo.py $OUT/demo.py
 cd $W
 PYTHONPATH=$W/src /venv/bin/python demo.py > $OUT/demo_with.txt 2>&1; DW=$?
-PYTHONPATH=/repo/src /venv/bin/python demo.py > $OUT/demo_without.txt 2>&1; DWO=$?
+REF=${REF:-/repo/src}   # pristine source (REF=/tmp/ref/src while something else uses /repo)
+PYTHONPATH=$REF /venv/bin/python demo.py > $OUT/demo_without.txt 2>&1; DWO=$?
 SUITE=$(PYTHONPATH=$W/src /venv/bin/python -m pytest -q -p no:cacheprovider tests 2>&1 | tail -1)
 echo "demo with change: exit $DW ; without: exit $DWO ; suite: $SUITE"
-cd /repo && git apply $OUT/patch.diff || { echo "PATCH DOES NOT APPLY to /repo"; exit 9; }
+# SCRATCH=1: leave /repo alone, the checks read the patched worktree (TP_SRC); native replays then see the unpatched /repo
+if [ -z "$SCRATCH" ]; then cd /repo && git apply $OUT/patch.diff || { echo "PATCH DOES NOT APPLY to /repo"; exit 9; }; else export TP_SRC=$W/src; fi
 RES=""
 for c in $CHECKS; do
   cd /verif && ./check $c > $OUT/check_$c.txt 2>&1; RC=$?
   RES="$RES $c:exit$RC"
   grep -E "^(VIOLATION|CHECKER|UNDECIDED)" $OUT/check_$c.txt | cut -c1-260 | head -4
 done
-git -C /repo checkout -- . 
+[ -z "$SCRATCH" ] && git -C /repo checkout -- .
 echo "checks:$RES"
 echo "{\"seed\": \"$ID\", \"property\": \"$PROP\", \"demo_exit_with_change\": $DW, \"demo_exit_without_change\": $DWO, \"suite_with_change\": \"$SUITE\", \"checks\": \"$RES\"}" > $OUT/result.json
